@@ -42,7 +42,7 @@ def leaf(rng):
     if k == 7: return np.array([[1, 2], [3, 4]]) if rng.random() < 0.5 else np.array([0.5, 1.5])
     if k in (8, 9): return rng.choice(MAGS) * units(rng.choice(UNITS))
     if k == 10: return units(rng.choice(UNITS)).units
-    if k == 11: return np.array([1.0, 2.0]) * units.fg
+    if k == 11: return rng.choice([np.array([1.0, 2.0]), np.array([1.5]), np.array([]), np.array([0.5, 1.0, 2.0])]) * units.fg
     if k == 12: return P({'a': 1}) if rng.random() < 0.5 else some_function
     return rng.choice([1, 'a', 2.0])
 
